@@ -28,9 +28,10 @@ func init() {
 	}
 	add := func(tier string, layout, a1, a2, length, seek, steps int, a3opt ...int) {
 		a3 := append(a3opt, 0)[0]
+		shape := append(a3opt, 0, 0)[1]
 		p.Harnesses = append(p.Harnesses, HSpec{Prop: "C15", Pkg: L, Dir: "c15", Func: "VH_C15_Walk", Tier: tier, Cfg: cfg, Hang: true,
-			Label:  fmt.Sprintf("[layout=%d arity=%d/%d/%d len=%d seek=%d]", layout, a1, a2, a3, length, seek),
-			Params: map[string]int{"LAYOUT": layout, "ARITY1": a1, "ARITY2": a2, "ARITY3": a3, "LEN": length, "SEEK": seek, "STEPS": steps},
+			Label:  fmt.Sprintf("[layout=%d arity=%d/%d/%d len=%d seek=%d shape=%d]", layout, a1, a2, a3, length, seek, shape),
+			Params: map[string]int{"LAYOUT": layout, "ARITY1": a1, "ARITY2": a2, "ARITY3": a3, "LEN": length, "SEEK": seek, "STEPS": steps, "SHAPE": shape, "CONCSEEK": append(a3opt, 0, 0, 0)[2]},
 			Reach:  []string{"walk/chunk"}})
 	}
 	//           layout a1 a2 len seek steps
@@ -39,6 +40,7 @@ func init() {
 	add("quick", 1, 1, 0, 40, 1, 3)
 	add("quick", 0, 1, 1, 66, 1, 3)
 	add("quick", 1, 1, 1, 64, 0, 3)
+	add("quick", 1, 2, 1, 80, 0, 3, 0, 2, 1)
 	add("thorough", 1, 1, 1, 96, 0, 2, 1)
 	add("thorough", 0, 1, 1, 96, 1, 3, 1)
 	add("thorough", 0, 2, 0, 50, 1, 3)
